@@ -26,16 +26,19 @@ ChainOK(t, i, fuel) == IF t[i] = 0 THEN TRUE ELSE IF fuel = 0 THEN FALSE ELSE Ch
 ValidTargets(n, t) == /\ \A i \in 1..n: t[i] # i /\ ChainOK(t, i, n)
                       /\ Cardinality({i \in 1..n : t[i] # 0}) <= MaxLinks
 
-Families == {"node", "anynode", "mixin", "light", "links", "linksown", "falsy"}
+Families == {"node", "anynode", "mixin", "light", "lightsub", "links", "linksown", "falsy"}
 HasLinks(f) == f \in {"links", "linksown"}
-Hows(f) == {"deepcopy"} \cup {"pickle" \o ToString(i) : i \in (IF f = "light" THEN 2..5 ELSE 0..5)}
+Hows(f) == {"deepcopy"} \cup {"pickle" \o ToString(i) : i \in (IF f \in {"light", "lightsub"} THEN 2..5 ELSE 0..5)}
 
 Nodes == 1..k
 Par == p
 Ch == [i \in Nodes |-> SelectSeq([j \in 1..k |-> j], LAMBDA j: p[j] = i)]
-Cls(i) == IF HasLinks(fam) THEN (IF tg[i] # 0 THEN (IF fam = "links" THEN "symlink" ELSE "symlinkown") ELSE "node") ELSE fam
+\* family "lightsub": a __slots__ class hierarchy -- odd nodes are the base class, even nodes a subclass with a slot of its own
+Cls(i) == IF fam = "lightsub" THEN (IF i % 2 = 1 THEN "light" ELSE "lightsub") ELSE
+          IF HasLinks(fam) THEN (IF tg[i] # 0 THEN (IF fam = "links" THEN "symlink" ELSE "symlinkown") ELSE "node") ELSE fam
 \* own instance attributes: ordinary nodes carry foo; a link of the family "linksown" keeps a link-local attribute `tag`
-OwnPairs(i) == IF tg[i] = 0 THEN << <<"foo", "v" \o ToString(i)>> >>
+OwnPairs(i) == IF fam = "lightsub" /\ i % 2 = 0 THEN << <<"foo", "v" \o ToString(i)>>, <<"weight", "w" \o ToString(i)>> >>
+               ELSE IF tg[i] = 0 THEN << <<"foo", "v" \o ToString(i)>> >>
                ELSE IF fam = "linksown" THEN << <<"tag", "t" \o ToString(i)>> >> ELSE <<>>
 \* ordinary nodes carry foo = "v<i>"; links forward
 Own == [i \in Nodes |-> IF tg[i] # 0 THEN [x \in {} |-> "1"] ELSE [x \in {"foo"} |-> "v" \o ToString(i)]]
